@@ -225,6 +225,20 @@ def rule_removal_order(ctx: Ctx) -> None:
     elif isinstance(src, ast.Call) and call_attr(src) == "reversed" and isinstance(src.args[0], ast.Call) and call_attr(src.args[0]) == "sorted":
         desc = get_kw(src.args[0], "reverse") is None
     c = [c for c in calls_in(loops[0]) if call_attr(c) == "remove_qubit"][0]
+    # a descending range over the positions is the other idiom: range(n - 1, -1, -1) with a membership test inside.  It has to reach
+    # position 0 (stop -1) and start at the last position
+    if isinstance(src, ast.Call) and call_name(src) == "range" and len(src.args) == 3 and norm(src.args[2]) == "-1":
+        nq = {norm(a.targets[0]) for a in ast.walk(fn) if isinstance(a, ast.Assign) and norm(a.value).endswith(".n_qubits")} | {f"{func_params(fn)[0]}.n_qubits"}
+        st = linear.clean(linear.lin(src.args[0]) or {"?": 1})
+        start_ok = any(st == {q_: 1, "": -1} for q_ in nq)
+        stop_ok = norm(src.args[1]) == "-1"
+        if not (start_ok and stop_ok):
+            ctx.fail("order.removal", m, loops[0],
+                     f"sfc.partial_trace walks the positions with `{short(src)}`: a descending walk over all positions is range(n_qubits - 1, -1, -1); this one "
+                     f"{'never visits position 0' if start_ok else 'does not start at the last position'}, so a qubit there is kept although it is not in `keep`",
+                     func="partial_trace", construct=f"partial_trace: removal walk {short(src, 60)} misses a position")
+            return
+        desc = True
     if desc and norm(c.args[1]) == norm(loops[0].target):
         ctx.ok("order.removal", m, loops[0], what="qubits removed in descending position order")
     else:
